@@ -1,18 +1,154 @@
 (* Props/C09.v — Async reads deliver exactly the active stream; output gated on the final stream.
-   Only statements (interim: parser-level laws used by poll_input; connection-level theorems are added
-   as Async/ConnReads.v completes). *)
-From FV Require Import Base.Bytes Gen.Generated Parser.ReqModel Parser.StreamModel Parser.AbsStream Parser.StreamSpec
-  Parser.StreamRefine Parser.StreamInv.
+   Only statements.  Model: Async/Conn.v (Request::poll_input / poll_output / writeable, handler scripts).
+   K a u = the content of the active stream still to come from parser state a over future bytes u (Parser/StreamSpec.v);
+   [remaining w] = client bytes not yet delivered by the transport; acct = the conservation record of Async/ConnReads.v. *)
+From FV Require Import Base.Bytes Gen.Generated Parser.ReqModel Parser.ReqTargets Parser.StreamModel Parser.AbsStream Parser.StreamSpec Parser.StreamRefine Parser.StreamInv Async.Conn Async.ConnWrites Async.ConnTotal Async.ConnReads.
 
-Theorem C09_parse_call : forall maxc, T_content_stmt maxc.
-Proof. exact T_content. Qed.
+(* ==== pinned from the proof files (tools/write_props.py) ==== *)
 
-Theorem C09_later_streams_untouched : forall maxc, T_later_stmt maxc.
-Proof. exact T_later. Qed.
+(* ONE poll of poll_input, any caller buffer (Some c / fill_buf = None), any transport behaviour: with dl the
+   bytes handed to the caller, K(before)(remaining) = dl ++ K(after)(remaining'), replies and later streams
+   conserved (acct); by outcome: Ok(n) with n = |dl| <= c, and Ok(0) for c > 0 only at end-of-stream; errors: a
+   sticky parser error, UnexpectedEof only with no client byte left (or a full buffer), or the error of the
+   flush; Pending leaves everything in place; and the writeable flag changes only as the gate law says *)
+Theorem C09_poll_input :
+  forall (maxc : N) (fuel : nat) (dest : option N) (r : rstate) (w : world) (p : pres (N * bytes + N))
+    (r' : rstate) (w' : world),
+  pinv (rsp r) ->
+  bytes_ok (remaining w) ->
+  (length (wscript w) + length (remaining w) + 2 <= fuel)%nat ->
+  poll_input maxc fuel dest r w = (p, r', w') ->
+  exists dl : bytes,
+    acct maxc [] r w dl r' w' /\
+    pi_case maxc dest dl r p r' w' /\
+    rwriteable r' = rwriteable r || poll_parses dest r && is_inl p && is_final_stream r.
+Proof. exact poll_input_reads. Qed.
 
-Theorem C09_select_later : forall maxc a s a' u, a_inv a -> aset_stream a s = ASetOk a' ->
-  (Header.optN_eqb s (a_stream a) = true -> a' = a) /\
-  (Header.optN_eqb s (a_stream a) = false ->
-     a_stream a' = s /\ a_parsed a' = [] /\ a_req a' = a_req a /\ a_out a' = a_out a /\ a_raw a' = a_raw a /\ K a' u = F s a u) /\
-  R maxc a' u = R maxc a u /\ (forall sg, F sg a' u = F sg a u) /\ a_inv a'.
-Proof. exact set_stream_law. Qed.
+(* the awaited read (Pending/wake cycles folded in) *)
+Theorem C09_await_input :
+  forall (maxc : N) (fuel : nat) (dest : option N) (r : rstate) (w : world),
+  pinv (rsp r) -> bytes_ok (remaining w) -> ai_post maxc dest r w (await_input maxc fuel dest r w).
+Proof. exact await_input_reads. Qed.
+
+(* end-of-file PERSISTS: at the terminator every later read returns Ok(0) without touching the transport's read
+   side *)
+Theorem C09_eof_persists :
+  forall (maxc : N) (fuel : nat) (c : N) (r : rstate) (w : world) (p : pres (N * bytes + N)) 
+    (r' : rstate) (w' : world),
+  pinv (rsp r) ->
+  at_term (abs (rsp r)) = true ->
+  stream_buffer (rsp r) = [] ->
+  0 < c ->
+  (length (wscript w) + 1 < fuel)%nat ->
+  poll_input maxc fuel (Some c) r w = (p, r', w') ->
+  remaining w' = remaining w /\
+  rscript w' = rscript w /\
+  pinv (rsp r') /\
+  at_term (abs (rsp r')) = true /\
+  stream_buffer (rsp r') = [] /\
+  match p with
+  | PReady (inl (n, b)) => n = 0 /\ b = []
+  | PReady (inr k) => (k = EK_WriteZero \/ k = EK_Transport) /\ output_buffer (rsp r) <> []
+  | PWake => output_buffer (rsp r) <> []
+  | PBlock => False
+  end /\ (output_buffer (rsp r) = [] -> p = PReady (inl (0, [])) /\ w' = w).
+Proof. exact poll_input_eof. Qed.
+
+(* Ok(0) into a non-empty buffer means end-of-stream *)
+Theorem C09_zero_is_eof :
+  forall (maxc : N) (fuel : nat) (c : N) (r : rstate) (w : world) (b : bytes) (r' : rstate) (w' : world),
+  pinv (rsp r) ->
+  bytes_ok (remaining w) ->
+  (length (wscript w) + length (remaining w) + 2 <= fuel)%nat ->
+  0 < c ->
+  poll_input maxc fuel (Some c) r w = (PReady (inl (0, b)), r', w') ->
+  b = [] /\
+  eos (abs (rsp r')) /\
+  stream_buffer (rsp r') = [] /\ K (abs (rsp r)) (remaining w) = K (abs (rsp r')) (remaining w').
+Proof. exact poll_input_zero_is_eof. Qed.
+
+(* read_to_end returns exactly the stream's content *)
+Theorem C09_read_to_end :
+  forall (maxc : N) (fuel : nat) (acc : bytes) (r : rstate) (w : world) (acc' : bytes) 
+    (r' : rstate) (w' : world),
+  pinv (rsp r) ->
+  bytes_ok (remaining w) ->
+  read_all maxc fuel acc r w = Ok (0, acc', r') w' -> acc' = acc ++ K (abs (rsp r)) (remaining w).
+Proof. exact read_all_complete. Qed.
+
+(* a handler that only reads (read / read_to_end / fill_buf+consume in any mix, any buffer sizes): the bytes it
+   observes, in order, are exactly a prefix of the stream content, and what it has not seen is still to come *)
+Theorem C09_handler_reads :
+  forall (maxc : N) (script : list N) (f : nat) (r : rstate) (w : world),
+  rd_only script ->
+  pinv (rsp r) ->
+  bytes_ok (remaining w) ->
+  match run_handler maxc f script r w with
+  | Ok (_, r') w' =>
+      exists (os : list obs) (fin : list N),
+        obs_of script os /\
+        events w' = fin :: flat_map obs_events (rev os) ++ events w /\
+        K (abs (rsp r)) (remaining w) = flat_map obs_bytes os ++ K (abs (rsp r')) (remaining w')
+  | Halt _ w' =>
+      exists (os : list obs) (rest : list N),
+        obs_of script os /\
+        events w' = flat_map obs_events (rev os) ++ events w /\
+        K (abs (rsp r)) (remaining w) = flat_map obs_bytes os ++ rest
+  end.
+Proof. exact run_handler_read_only. Qed.
+
+(* handlers that also switch streams / call writeable(): after a switch the delivered bytes are content of the
+   newly selected stream computed from the handler's very first state (trace law tlaw) *)
+Theorem C09_handler_reads_and_switches :
+  forall (maxc : N) (script : list N) (f : nat) (r : rstate) (w : world),
+  rd_script script ->
+  pinv (rsp r) ->
+  bytes_ok (remaining w) -> hr_post script (abs (rsp r)) (remaining w) r w (run_handler maxc f script r w).
+Proof. exact run_handler_reads_top. Qed.
+
+(* the gate: poll_input opens it only when it went to the parser, returned Ok and the active stream is the
+   role's final stream; nothing closes it *)
+Theorem C09_gate :
+  forall (maxc : N) (fuel : nat) (dest : option N) (r : rstate) (w : world) (p : pres (N * bytes + N))
+    (r' : rstate) (w' : world),
+  pinv (rsp r) ->
+  bytes_ok (remaining w) ->
+  (length (wscript w) + length (remaining w) + 2 <= fuel)%nat ->
+  poll_input maxc fuel dest r w = (p, r', w') ->
+  (rwriteable r = true -> rwriteable r' = true) /\
+  (rwriteable r' = true ->
+   rwriteable r = true \/ poll_parses dest r = true /\ is_inl p = true /\ is_final_stream r = true) /\
+  (poll_parses dest r = true -> is_inl p = true -> is_final_stream r = true -> rwriteable r' = true).
+Proof. exact poll_input_gate. Qed.
+
+(* Request::new opens the gate only for roles whose first stream is the final one *)
+Theorem C09_initial_gate :
+  forall role : N,
+  (len (Header.role_input_streams role) <=? 1) = true ->
+  Header.next_input_stream role (Header.next_input_stream role None) = None.
+Proof. exact request_new_gate. Qed.
+
+(* writeable(): Ok means the gate is open — or the stale case spelled out in the statement (gate closed, final
+   stream already selected, buffered data, reachable only after a parser error; see DESIGN.md, observation O1) *)
+Theorem C09_writeable :
+  forall (maxc : N) (r : rstate) (w : world) (e : option N) (r' : rstate) (w' : world),
+  pinv (rsp r) ->
+  bytes_ok (remaining w) ->
+  do_writeable maxc r w = Ok (e, r') w' ->
+  (rwriteable r = true -> e = None /\ r' = r /\ w' = w) /\
+  (rwriteable r = false ->
+   let last := last_opt (r_role (sreq (rsp r))) in
+   exists p1 : sp,
+     set_stream (rsp r) last = SetOk p1 /\
+     stream (rsp r') = last /\
+     sreq (rsp r') = sreq (rsp r) /\
+     is_final_stream r' = true /\
+     acct maxc [] {| rsp := p1; rwriteable := false; rlock := rlock r |} w [] r' w' /\
+     match e with
+     | Some _ => rwriteable r' = false
+     | None =>
+         rwriteable r' = true \/
+         rwriteable r' = false /\ stream (rsp r) = last /\ stream_buffer (rsp r) <> [] /\ r' = r /\ w' = w
+     end).
+Proof. exact do_writeable_gate. Qed.
+
